@@ -392,6 +392,27 @@ impl Prop for C02 {
             spec.1.paren = oracle::spec::ParenStyle::Minimal;
             out.push(spec);
         }
+        // one state with 1 600 character transitions next to a class of 700 pieces that covers
+        // them (each listed character must also follow the class's transition)
+        for i in 0..tier.pick(1, 3) {
+            let mut pieces = vec![];
+            let mut listed = vec![];
+            let mut x = 0x4E00u32 + 7 * i as u32;
+            for k in 0..700u32 {
+                let len = 3 + (k * 7 + i as u32) % 6;
+                pieces.push(SetItem::R(char::from_u32(x).unwrap(), char::from_u32(x + len).unwrap()));
+                listed.push(SetItem::C(char::from_u32(x).unwrap()));
+                listed.push(SetItem::C(char::from_u32(x + len).unwrap()));
+                if k % 3 == 0 {
+                    listed.push(SetItem::C(char::from_u32(x + 1).unwrap()));
+                }
+                x += len + 1 + (k % 3);
+            }
+            let rules = vec![(Re::Set(listed), None), (plus(Re::Set(pieces)), None), (Re::Any, None)];
+            let mut sp = simple_spec(rules, i % 2 == 1, vec![]);
+            sp.paren = ParenStyle::Full;
+            out.push(("big-sets", sp));
+        }
         // spell a third of all definitions with the fewest parentheses the grammar allows and a
         // third with redundant ones (the trees, hence the reference languages, are the same)
         for (k, (_, s)) in out.iter_mut().enumerate() {
@@ -759,6 +780,21 @@ impl Prop for C11b {
                 // many pieces: beyond the guard-chain threshold, minus / plus something
                 let big = gen::many_piece_set(&sample(&tapes, r), 10 + i % 9);
                 c = if i % 10 == 0 { gen::mk_diff(big, c) } else { alt(big, c) };
+            }
+            if i % 13 == 7 {
+                // `((_ # X) | Y) # Z` with Y inside X: a union whose left side spans the whole
+                // scalar range with holes and whose right side puts characters back into a hole
+                if let Some(xc) = c.class().filter(|k| !k.is_empty()) {
+                    let t = sample(&tapes, r);
+                    let mut tp = gen::Tape::new(&t);
+                    let piece = xc.0[tp.next(xc.0.len() as u32) as usize];
+                    let y1 = char::from_u32(piece.0).unwrap_or('a');
+                    let y2 = char::from_u32(piece.1).unwrap_or('a');
+                    let y = if tp.next(2) == 0 { Re::Char(y1) } else { Re::Set(vec![SetItem::C(y1), SetItem::C(y2)]) };
+                    let z = Re::Set(vec![SetItem::C(' '), SetItem::C('\n')]);
+                    let left = alt(diff(Re::Any, c.clone()), y);
+                    c = if tp.next(3) == 0 { left } else { diff(left, z) };
+                }
             }
             if c.class().map(|k| k.is_empty()).unwrap_or(true) {
                 continue;
